@@ -28,8 +28,16 @@ def pmap(func, tasks, chunksize=1):
     if n <= 1 or len(tasks) <= 1:
         return [func(t) for t in tasks]
     ctx = multiprocessing.get_context('fork')
-    with ctx.Pool(min(n, len(tasks))) as pool:
-        return pool.map(func, tasks, chunksize)
+    pool = ctx.Pool(min(n, len(tasks)))
+    try:
+        out = pool.map(func, tasks, chunksize)
+        pool.close()        # let the workers exit by themselves (a coverage run writes its data at exit)
+    except BaseException:
+        pool.terminate()
+        raise
+    finally:
+        pool.join()
+    return out
 
 
 class Agg:
